@@ -92,8 +92,14 @@ def gen_plan(seed, tier):
       calls.append(dict(kind="knn", k_genuine=r.randint(1, 6), k_impostor=r.randint(1, 6),
                         points=dict(seed=r.randrange(10**6), d=r.randint(1, 4),
                                     kind=r.choice(["cont", "grid"]))))
+  shared = substream(seed, "c07-shared").random() < 0.5
+  if shared:
+    rl = substream(seed, "c07-relabel")
+    for c_ in calls[1:]:
+      if rl.random() < 0.35:
+        c_["relabel"] = rl.randrange(10**6)
   return dict(run_seed=seed, labels=labels, calls=calls,
-              shared_object=substream(seed, "c07-shared").random() < 0.5,
+              shared_object=shared,
               fresh=r.random() < (0.002 if tier == "quick" else 0.001))
 
 
@@ -343,9 +349,24 @@ def fresh_eval(plan):
   res = []
   C = _shared(plan, y)
   for call in plan["calls"]:
+    if C is not None and call.get("relabel"):
+      _relabel(y, call["relabel"])
+      C.partial_labels[...] = y
     o, v, _, _ = do_call(y, call, C)
     res.append(out_digest(o, v))
   return res
+
+
+def _relabel(y, seed):
+  """In-place edit of a label vector: some labels withdrawn (-1), some (re)assigned."""
+  rr = np_stream(seed, "relabel")
+  known = y[y >= 0].copy()
+  pos = rr.permutation(len(y))[:max(1, len(y) // 5)]
+  for j_ in pos:
+    if y[j_] >= 0 and rr.rand() < 0.6:
+      y[j_] = -1
+    elif len(known):
+      y[j_] = int(known[rr.randint(len(known))])
 
 
 def _shared(plan, y):
@@ -368,9 +389,20 @@ def run_plan(plan):
     cov["shared_constraints_object"] += int(C is not None)
     for i, call in enumerate(plan["calls"]):
       world.perturb_ambient(h64("c07", plan["run_seed"], i) % (2**31), 1)
+      relabelled = None
+      if C is not None and call.get("relabel"):
+        # the caller edits the labels of the live object between two calls (labels
+        # revealed or withdrawn): the constraints follow the labels as they are now
+        _relabel(y, call["relabel"])
+        C.partial_labels[...] = y
+        y0 = y.copy()
+        cov["labels_edited_on_live_object"] += 1
+        relabelled = digest(y)
       outcome, out, wl, info = do_call(y, call, C)
       ev = dict(i=i, kind=call["kind"], outcome=outcome, out=out_digest(outcome, out),
                 warn=world.warn_cats(wl))
+      if relabelled:
+        ev["relabel"] = relabelled
       if "rounds" in info:
         ev["rounds"] = info["rounds"]
         cov["retry_rounds_total"] += info["rounds"]
@@ -464,6 +496,10 @@ def shrink_moves(plan, violation):
     if c.get("same_length"):
       p = copy.deepcopy(plan)
       p["calls"][i]["same_length"] = False
+      yield p
+    if c.get("relabel"):
+      p = copy.deepcopy(plan)
+      del p["calls"][i]["relabel"]
       yield p
     if c.get("rs", {}).get("kind") in ("sim", "scripted"):
       p = copy.deepcopy(plan)
